@@ -18,6 +18,16 @@ def enums():
     return FileState, StepState, Need
 
 
+class _Tagged(list):
+    def __init__(self):
+        super().__init__()
+        self.tags = []
+
+    def add(self, tag, f):
+        self.append(f)
+        self.tags.append(tag)
+
+
 class Wf:
     """Symbolic workflow database over K node slots and D dependency slots."""
 
@@ -164,18 +174,20 @@ class Wf:
             C = [[z3.Or(C[a][b], *[z3.And(C[a][m], E[m][b]) for m in range(K)]) for b in range(K)] for a in range(K)]
         return C
 
-    def inv(self, acyclic_by_rank=True, tag="rk"):
+    def inv(self, acyclic_by_rank=True, tag="rk", strong_i4=False):
         FileState, StepState, Need = enums()
         K = self.K
-        cons = []
+        cons = _Tagged()
         R = self.reach_from_root()
         pool = self.ctx.pool
         for j in range(K):
             n = self.nodes[j]
             p = bz(n.present)
             if j > 0:
-                cons.append(z3.Implies(p, (n.vals["detached"].v == 1) == z3.Not(R[j])))  # I1
+                T = "I1"
+                cons.add(T, z3.Implies(p, (n.vals["detached"].v == 1) == z3.Not(R[j])))  # I1
                 # creator refers to a present node of an allowed kind (I7, as in WORKFLOW_SCHEMA)
+                T = "I7"
                 for c in range(K):
                     ck = self.nodes[c].vals["kind"].v
                     allowed = z3.Or(
@@ -183,20 +195,26 @@ class Wf:
                         z3.And(n.vals["kind"].v == pool.atom("step"), z3.Or(ck == pool.atom("step"), ck == pool.atom("root"))),
                         z3.And(n.vals["kind"].v == pool.atom("st"), ck == pool.atom("step")),
                     )
-                    cons.append(z3.Implies(z3.And(p, self.creator_is(j, c)), z3.And(bz(self.nodes[c].present), allowed)))
-                cons.append(z3.Implies(p, z3.Not(self.creator_is(j, j))))
+                    cons.add(T, z3.Implies(z3.And(p, self.creator_is(j, c)), z3.And(bz(self.nodes[c].present), allowed)))
+                cons.add(T, z3.Implies(p, z3.Not(self.creator_is(j, j))))
             f = self.files[j]
             fp = bz(f.present)
             st = f.vals["state"].v
-            cons.append(z3.Implies(z3.And(fp, st == FileState.UNDECLARED.value), n.vals["detached"].v == 1))  # I3
+            T = "I3"
+            cons.add(T, z3.Implies(z3.And(fp, st == FileState.UNDECLARED.value), n.vals["detached"].v == 1))  # I3
+            # I3b (strengthening): an UNDECLARED file is a placeholder created without a creator
+            cons.add(T, z3.Implies(z3.And(fp, st == FileState.UNDECLARED.value), bz(n.vals["creator"].n)))
             need_hash = z3.Or(st == FileState.CONFIRMED.value, st == FileState.BUILT.value, st == FileState.OUTDATED.value)
             no_hash = z3.Or(st == FileState.MISSING.value, st == FileState.PLANNED.value, st == FileState.VOLATILE.value)
-            cons.append(z3.Implies(z3.And(fp, need_hash), z3.Not(bz(f.vals["hash"].n))))  # I5
-            cons.append(z3.Implies(z3.And(fp, no_hash), bz(f.vals["hash"].n)))
+            T = "I5"
+            cons.add(T, z3.Implies(z3.And(fp, need_hash), z3.Not(bz(f.vals["hash"].n))))  # I5
+            cons.add(T, z3.Implies(z3.And(fp, no_hash), bz(f.vals["hash"].n)))
             s = self.steps[j]
             sp = bz(s.present)
-            cons.append(z3.Implies(sp, (s.vals["_has_hash"].v == 1) == bz(self.t("step_hash").rows[j].present)))  # I5
-            cons.append(z3.Implies(z3.And(sp, s.vals["_holding"].v > 0), s.vals["state"].v == StepState.RUNNING.value))  # I6
+            cons.add(T, z3.Implies(sp, (s.vals["_has_hash"].v == 1) == bz(self.t("step_hash").rows[j].present)))  # I5
+            T = "I6"
+            cons.add(T, z3.Implies(z3.And(sp, s.vals["_holding"].v > 0), s.vals["state"].v == StepState.RUNNING.value))  # I6
+        T = "I2"
         # I2: dependency kinds and acyclicity
         for r in self.deps:
             for a in range(K):
@@ -212,20 +230,22 @@ class Wf:
                             z3.And(ka == pool.atom("st"), kb == pool.atom("file")),
                         ),
                     )
-                    cons.append(z3.Implies(e, ok))
+                    cons.add(T, z3.Implies(e, ok))
         if acyclic_by_rank:
             rank = [z3.Int(f"{tag}[{j}]") for j in range(K)]
             for r in self.deps:
                 for a in range(K):
                     for b in range(K):
                         e = z3.And(bz(r.present), r.vals["source"].v == a + 1, r.vals["sink"].v == b + 1)
-                        cons.append(z3.Implies(e, rank[a] < rank[b]))
+                        cons.add(T, z3.Implies(e, rank[a] < rank[b]))
+        T = "I8"
         # I8: a file that a step produces (edge step -> file) was created by that step: outputs are
         # declared by their producer (define_step / amend_step), or lost their creator when detached
         for a in range(K):
             for b in range(K):
                 e = z3.And(self.dep_edge(a, b), bz(self.steps[a].present), bz(self.files[b].present))
-                cons.append(z3.Implies(e, z3.Or(bz(self.nodes[b].vals["creator"].n), self.creator_is(b, a))))
+                cons.add(T, z3.Implies(e, z3.Or(bz(self.nodes[b].vals["creator"].n), self.creator_is(b, a))))
+        T = "I9"
         # I9: roles.  An attached file that some step produces is in an output or volatile state; an
         # attached file that no step produces is in a static state.
         FS = FileState
@@ -235,19 +255,37 @@ class Wf:
             out_states = z3.Or(st_b == FS.PLANNED.value, st_b == FS.BUILT.value, st_b == FS.OUTDATED.value, st_b == FS.VOLATILE.value)
             static_states = z3.Or(st_b == FS.UNCONFIRMED.value, st_b == FS.MISSING.value, st_b == FS.CONFIRMED.value)
             att = z3.And(bz(self.files[b].present), self.nodes[b].vals["detached"].v == 0)
-            cons.append(z3.Implies(z3.And(att, produced), out_states))
-            cons.append(z3.Implies(z3.And(att, z3.Not(produced)), static_states))
+            # (the same for a file that was detached together with its producer: it keeps the state it had)
+            own = z3.Or(*[z3.And(self.dep_edge(a, b), bz(self.steps[a].present), self.creator_is(b, a)) for a in range(K)])
+            cons.add(T, z3.Implies(z3.And(bz(self.files[b].present), own), out_states))
+            cons.add(T, z3.Implies(z3.And(att, produced), out_states))
+            cons.add(T, z3.Implies(z3.And(att, z3.Not(produced)), static_states))
+        T = "I4"
         # I4: attached output of a SUCCEEDED step is BUILT or VOLATILE
         for a in range(K):
             for b in range(K):
                 e = z3.And(self.dep_edge(a, b), bz(self.steps[a].present), bz(self.files[b].present))
-                cons.append(
+                cons.add(T, 
                     z3.Implies(
                         z3.And(e, self.steps[a].vals["state"].v == StepState.SUCCEEDED.value, self.nodes[b].vals["detached"].v == 0),
                         z3.Or(self.files[b].vals["state"].v == FileState.BUILT.value, self.files[b].vals["state"].v == FileState.VOLATILE.value),
                     )
                 )
-        return cons
+        # I4s: the same for an output that was detached together with its producer (creator link kept):
+        # "a step marked succeeded has all its outputs built" -- a recycled subtree comes back as it is
+        T = "I4s"
+        for a in range(K if strong_i4 else 0):
+            for b in range(K):
+                e = z3.And(self.dep_edge(a, b), bz(self.steps[a].present), bz(self.files[b].present), self.creator_is(b, a))
+                cons.add(
+                    T,
+                    z3.Implies(
+                        z3.And(e, self.steps[a].vals["state"].v == StepState.SUCCEEDED.value),
+                        z3.Or(self.files[b].vals["state"].v == FileState.BUILT.value, self.files[b].vals["state"].v == FileState.VOLATILE.value),
+                    ),
+                )
+        self.inv_tags = cons.tags
+        return list(cons)
 
     def acyclic(self):
         C = self.dep_closure()
